@@ -716,6 +716,14 @@ fn invalid_case(rng: &mut Rng, rep: &mut Report, i: u64) {
                     (Solver::Itp { k1, k2, n0: -*rng.pick(&[1.0, 2.0, 0.5, 1e-3, 10.0, v]) }, "negative-n0")
                 }
             };
+            // a quarter of these calls carry a second invalid argument as well (a negative tolerance): two
+            // wrongs do not make a valid call
+            let tol = if rng.chance(0.25) {
+                rep.count("invalid/itp_calls_with_two_invalid_arguments", 1);
+                -rng.log10(-12.0, 0.0)
+            } else {
+                tol
+            };
             run_and_note(rep, &Exec { f: &p.f, a: p.a, b: p.b, tol, solver, expect: Expect::Err(tag) });
         }
     }
